@@ -1,2 +1,2 @@
 import XgiModel.C13.Drive
-def main : IO Unit := Xgi.Proto.runDriver () Xgi.C13.Drive.handle
+def main : IO Unit := Xgi.Proto.runDriver (none : Xgi.C13.Drive.St) Xgi.C13.Drive.handle
